@@ -241,33 +241,35 @@ where
     | [r] => [{ r with rhs := Lanes.const like last }]
     | r :: rest => { r with rhs := Lanes.const like c0 } :: go rest
 
-/-- Periodic, `len ≥ 4`: the condensed system (two Thomas solves) -/
-def periodicN (xs : List α) (ys : List V) (e : Ends α V) (xl4 : α) : Except Fault (List V) := do
+/-- row 0 of the condensed periodic system: `a_mid[0] = 2(dx_1 + dx0)`, `a_up[0] = dx_1`,
+    `rhs[0] = (slope_1·dx0 + slope0·dx_1)·3` -/
+def periodicRow0 (e : Ends α V) : Row α V :=
   let dx0 := e.dx0
   let dx_1 := e.dxl1
-  let dx_2 := e.dxl2
   let slope0 := Lanes.map1 (fun v => v / dx0) (Lanes.map2 (fun y1 y0 => y1 - y0) e.y1 e.y0)
   let slope_1 := Lanes.map1 (fun v => v / dx_1) (Lanes.map2 (fun a b => a - b) e.yl1 e.yl2)
+  { lo := c0, mid := c2 * (dx_1 + dx0), up := dx_1
+    rhs := Lanes.map1 (fun v => v * c3)
+      (Lanes.map2 (fun a b => a + b) (Lanes.map1 (fun s => s * dx0) slope_1)
+        (Lanes.map1 (fun s => s * dx_1) slope0)) }
+
+/-- `rhs[len-2] = (slope_2·dx_1 + slope_1·dx_2)·3` -/
+def periodicRhsLast (e : Ends α V) : V :=
+  let dx_1 := e.dxl1
+  let dx_2 := e.dxl2
+  let slope_1 := Lanes.map1 (fun v => v / dx_1) (Lanes.map2 (fun a b => a - b) e.yl1 e.yl2)
   let slope_2 := Lanes.map1 (fun v => v / dx_2) (Lanes.map2 (fun a b => a - b) e.yl2 e.yl3)
-  -- rows 1 .. len-3 of the condensed system are interior rows 1 .. len-3
-  let inner := (interiorRows xs ys).dropLast
-  let rhs0 := Lanes.map1 (fun v => v * c3)
-    (Lanes.map2 (fun a b => a + b) (Lanes.map1 (fun s => s * dx0) slope_1)
-      (Lanes.map1 (fun s => s * dx_1) slope0))
-  let rhsLast := Lanes.map1 (fun v => v * c3)
+  Lanes.map1 (fun v => v * c3)
     (Lanes.map2 (fun a b => a + b) (Lanes.map1 (fun s => s * dx_1) slope_2)
       (Lanes.map1 (fun s => s * dx_2) slope_1))
-  let row0 : Row α V := { lo := c0, mid := c2 * (dx_1 + dx0), up := dx_1, rhs := rhs0 }
-  let rows1 := row0 :: inner
-  let dx_3 := e.xl3 - xl4
-  -- `rhs2`: zeros, row 0 filled with `-dx0`, then row `len-3` filled with `-dx_3`
-  let rows2 := rhs2Rows e.y0 (-dx0) (-dx_3) rows1
-  let k1 := thomas rows1
-  let k2 := thomas rows2
+
+/-- `k_m1` and the assembly of `k` from the two Thomas solutions -/
+def periodicCombine (dx_1 dx_2 : α) (len : Nat) (rhsLast : V) (k1 k2 : List V) :
+    Except Fault (List V) := do
   let k1_0 ← rd k1 0
-  let k1_l ← rd k1 (ys.length - 3)
+  let k1_l ← rd k1 (len - 3)
   let k2_0 ← rd k2 0
-  let k2_l ← rd k2 (ys.length - 3)
+  let k2_l ← rd k2 (len - 3)
   let num := Lanes.map2 (fun a b => a - b)
     (Lanes.map2 (fun a b => a - b) rhsLast (Lanes.map1 (fun v => v * dx_2) k1_0))
     (Lanes.map1 (fun v => v * dx_1) k1_l)
@@ -279,6 +281,14 @@ def periodicN (xs : List α) (ys : List V) (e : Ends α V) (xl4 : α) : Except F
     (Lanes.map2 (fun km k2 => km * k2) k_m1 b)) k1 k2
   let k0 ← rd head 0
   pure (head ++ [k_m1, k0])
+
+/-- Periodic, `len ≥ 4`: the condensed system (two Thomas solves) -/
+def periodicN (xs : List α) (ys : List V) (e : Ends α V) (xl4 : α) : Except Fault (List V) :=
+  -- rows 1 .. len-3 of the condensed system are interior rows 1 .. len-3
+  let rows1 := periodicRow0 e :: (interiorRows xs ys).dropLast
+  -- `rhs2`: zeros, row 0 filled with `-dx0`, then row `len-3` filled with `-dx_3`
+  let rows2 := rhs2Rows e.y0 (-e.dx0) (-(e.xl3 - xl4)) rows1
+  periodicCombine e.dxl1 e.dxl2 ys.length (periodicRhsLast e) (thomas rows1) (thomas rows2)
 
 variable [Cmp α]
 
@@ -326,16 +336,8 @@ structure SplineStrat (V : Type) where
 
 variable [ToUsize α] [RemEuclid α]
 
-/-- `<CubicSplineStrategy as Interp1DStrategy>::interp_into` -/
-def splineInterp (s : SplineStrat V) (xs : List α) (ys : List V) (q : α) : Except Fault V := do
-  let inRange ← isInRange xs q
-  if s.extrapolate == .no && !inRange then throw .outOfBounds
-  let x ←
-    if s.extrapolate == .periodic && !inRange then do
-      let x0 ← rd xs 0
-      let xn ← rd xs (xs.length - 1)
-      pure (RemEuclid.remEuclid (q - x0) (xn - x0) + x0)
-    else pure q
+/-- the evaluation of `interp_into` at the (possibly wrapped) point `x` -/
+def splineEvalAt (s : SplineStrat V) (xs : List α) (ys : List V) (x : α) : Except Fault V := do
   let idx ← lowerIndex xs x
   let xLeft ← rd xs idx
   let dataLeft ← rd ys idx
@@ -347,6 +349,22 @@ def splineInterp (s : SplineStrat V) (xs : List α) (ys : List V) (q : α) : Exc
   pure (Lanes.map4 (fun yLeft yRight aLeft bLeft =>
     (c1 - t) * yLeft + t * yRight + t * (c1 - t) * (aLeft * (c1 - t) + bLeft * t))
     dataLeft dataRight aLeft bLeft)
+
+/-- the point `interp_into` evaluates at: the query, or in `Periodic` mode outside the range
+    `(q - x0).rem_euclid(xn - x0) + x0` -/
+def splineWrap (extr : Extrapolate) (inRange : Bool) (xs : List α) (q : α) : Except Fault α :=
+  if extr == .periodic && !inRange then do
+    let x0 ← rd xs 0
+    let xn ← rd xs (xs.length - 1)
+    pure (RemEuclid.remEuclid (q - x0) (xn - x0) + x0)
+  else pure q
+
+/-- `<CubicSplineStrategy as Interp1DStrategy>::interp_into` -/
+def splineInterp (s : SplineStrat V) (xs : List α) (ys : List V) (q : α) : Except Fault V := do
+  let inRange ← isInRange xs q
+  if s.extrapolate == .no && !inRange then throw .outOfBounds
+  let x ← splineWrap s.extrapolate inRange xs q
+  splineEvalAt s xs ys x
 
 end
 
